@@ -138,8 +138,12 @@ func (c *Conc) envNum(setting string, s Src) (string, bool) {
 	switch s.K {
 	case "absent":
 		return "", false
+	case "empty":
+		return "", true // the variable is SET, to the empty string
 	case "valid":
 		return strconv.Itoa(c.numVal(setting, s.V)), true
+	case "vdef":
+		return strconv.Itoa(defaultNum(setting)), true // a valid value equal to the built-in default
 	case "nonnum":
 		return c.pick(repNonNum), true
 	case "neg":
@@ -166,6 +170,8 @@ func (c *Conc) optNum(setting string, s Src) (int, bool) {
 		return 0, false
 	case "valid":
 		return c.numVal(setting, s.V), true
+	case "vdef":
+		return defaultNum(setting), true
 	case "zero":
 		return 0, true
 	case "neg":
@@ -252,6 +258,8 @@ func (c *Conc) envHeaders(s Src) (string, bool) {
 	switch s.K {
 	case "absent":
 		return "", false
+	case "empty":
+		return "", true
 	case "valid":
 		return c.pick(hdrEnvForms[s.V]), true
 	case "garbage":
@@ -298,6 +306,8 @@ func (c *Conc) envCompression(s Src) (string, bool) {
 	switch s.K {
 	case "absent":
 		return "", false
+	case "empty":
+		return "", true
 	case "valid":
 		return s.V, true
 	case "unknown":
@@ -312,10 +322,22 @@ func (c *Conc) envCompression(s Src) (string, bool) {
 
 var repURLUnparsable = []string{"://%s", "http://[::1", "http://%s/%%zz", "http://%s:port", "ht tp://%s"}
 
-func (c *Conc) envURL(s Src, hostport string) (string, bool) {
+// defaultHostPort: the documented default endpoint of the OTLP exporters.
+func defaultHostPort(http bool) string {
+	if http {
+		return "localhost:4318"
+	}
+	return "localhost:4317"
+}
+
+func (c *Conc) envURL(s Src, hostport string, http bool) (string, bool) {
 	switch s.K {
 	case "absent":
 		return "", false
+	case "empty":
+		return "", true
+	case "defurl":
+		return "http://" + defaultHostPort(http) + s.V, true
 	case "url":
 		return "http://" + hostport + s.V, true
 	case "unparsable":
